@@ -652,7 +652,10 @@ async def _execute(loop, program, observe=None):
             scn.raws.append(r)
         if raw_side != 's':
             hf = (program.get('_handler_factory') or {}).get('s')
-            srv = RSocketServer(c.transport['s'], handler_factory=hf(scn) if hf else make_handler_class(scn, 's'),
+            if hf and getattr(scn, '_server_handler_factory', None) is None:
+                # one handler factory object for all connections of the run, as a listening application has it
+                scn._server_handler_factory = hf(scn)
+            srv = RSocketServer(c.transport['s'], handler_factory=scn._server_handler_factory if hf else make_handler_class(scn, 's'),
                                 fragment_size_bytes=frag[1], **common, **skw)
             scn.sock['s'] = srv
             scn.servers.append(srv)
